@@ -3,6 +3,7 @@ package caseconversion
 import (
 	"fmt"
 	"go/token"
+	"sort"
 	"strings"
 	"unicode"
 	"unicode/utf8"
@@ -176,22 +177,48 @@ func DecodeGoTags(s string) (DecodedIdentifier, error) {
 // List from https://github.com/golang/lint/blob/master/lint.go
 var commonInitialisms = []string{"ACL", "API", "ASCII", "CPU", "CSS", "DNS", "EOF", "GUID", "HTML", "HTTP", "HTTPS", "ID", "IP", "JSON", "LHS", "QPS", "RAM", "RHS", "RPC", "SLA", "SMTP", "SQL", "SSH", "TCP", "TLS", "TTL", "UDP", "UI", "UID", "UUID", "URI", "URL", "UTF8", "VM", "XML", "XMPP", "XSRF", "XSS"}
 
+// longestInitialismPrefixes returns the known initialisms that s starts with,
+// longest first.
+func longestInitialismPrefixes(s string) []string {
+	prefixes := []string{}
+	for _, initialism := range commonInitialisms {
+		if strings.HasPrefix(s, initialism) {
+			prefixes = append(prefixes, initialism)
+		}
+	}
+	sort.SliceStable(prefixes, func(i, j int) bool { return len(prefixes[i]) > len(prefixes[j]) })
+	return prefixes
+}
+
+// splitInitialisms splits s into known initialisms, preferring longer
+// initialisms (HTTPS is not HTTP followed by S). The boolean is false when s is
+// not a sequence of known initialisms.
+func splitInitialisms(s string) ([]string, bool) {
+	if len(s) == 0 {
+		return []string{}, true
+	}
+	for _, initialism := range longestInitialismPrefixes(s) {
+		if rest, ok := splitInitialisms(s[len(initialism):]); ok {
+			return append([]string{strings.ToLower(initialism)}, rest...), true
+		}
+	}
+	return nil, false
+}
+
 // Given an entirely uppercase string, extract any initialisms sequentially from the start of the string and return them with the remainder of the string
 func extractInitialisms(s string) []string {
-	words := []string{}
+	if words, ok := splitInitialisms(s); ok {
+		return words
+	}
 
+	words := []string{}
 	for {
-		initialismFound := false
-		for _, initialism := range commonInitialisms {
-			if len(s) >= len(initialism) && initialism == s[:len(initialism)] {
-				initialismFound = true
-				words = append(words, strings.ToLower(initialism))
-				s = s[len(initialism):]
-			}
-		}
-		if !initialismFound {
+		prefixes := longestInitialismPrefixes(s)
+		if len(prefixes) == 0 {
 			break
 		}
+		words = append(words, strings.ToLower(prefixes[0]))
+		s = s[len(prefixes[0]):]
 	}
 
 	if len(s) > 0 {
